@@ -191,6 +191,8 @@ Fixpoint rep_an (anr : summ -> option summ) (lo hi : nat) (sk : summ) {struct hi
       end
   end.
 
+Definition hfac (hi : nat) : N := N.of_nat (S hi).
+
 Fixpoint an (r : re) (sk : summ) {struct r} : option summ :=
   match r with
   | Eps => Some sk
@@ -211,8 +213,7 @@ Fixpoint an (r : re) (sk : summ) {struct r} : option summ :=
                              else None))
       end
   | Star cs lo (Some hi) =>
-      let h := N.of_nat (S hi) in
-      Some (mk (h * sa sk) (h * (sb sk + 2))
+      Some (mk (hfac hi * sa sk) (hfac hi * (sb sk + 2))
                (fun C => if disj C cs
                          then match lo with O => opt_add (sq sk C) 1 | S _ => Some 1%N end
                          else None))
